@@ -18,10 +18,10 @@ Definition f_mean_photon mu cov n (hbar : float) mode :=
   mean_photon float f0 f1 PrimFloat.add PrimFloat.mul PrimFloat.sub PrimFloat.div (fvec mu) (fmat cov) n hbar mode.
 Definition f_quad_expectation mu cov n (c s : float) mode :=
   quad_expectation float f0 PrimFloat.add PrimFloat.mul (fvec mu) (fmat cov) n c s mode.
-(* oracle values for G: the harness evaluates numpy's formula on the full state and on the reduced
-   state; the model says which of the two the code uses *)
-Definition f_parity_coded (n : nat) (gfull : float) (hb2 : float) (modes : list nat) :=
-  parity_coded float f1 PrimFloat.mul (fun _ => f0) (fun _ _ => f0) n (fun _ _ => gfull) hb2 modes.
+(* oracle value for G: the harness evaluates numpy's formula on the reduced state of sorted(modes);
+   the model decides whether the call answers at all and supplies the prefactor *)
+Definition f_parity (mu : list float) (cov : list (list float)) (n : nat) (g : float) (hb2 : float) (modes : list nat) :=
+  parity_expectation float f1 PrimFloat.mul (fvec mu) (fmat cov) n (fun _ _ => g) hb2 modes.
 
 (* ---- exact integer tensors ---- *)
 Definition ztensor (D : nat) (data : list Z) : tensor Z := fun idx => nth (flatten D idx) data 0%Z.
